@@ -566,6 +566,17 @@ def r11_7(rep: Report) -> None:
         key_term = m.group(1) if m else None
         ok = bool(m) and dkey == f'{key_term}.KEY.raw' and f'{key_term}.KID.raw' in dk \
             and re.fullmatch(r'keys\[\w+\.lower\(\)\]', key_term or '') is not None
+        # the licence URL template may name the default key too: {default_kid} is filled from the same key
+        la = text(ctx.get('la_url')) if 'la_url' in ctx else ''
+        mla = re.search(r'\bdefault_kid=([^,()]+(?:\([^()]*\))?[^,()]*)', la)
+        if mla and key_term and not mla.group(1).strip().startswith(key_term + '.KID'):
+            rep.fail(rid, c, 'licence URL names the default key',
+                     f'the `default_kid` field of the licence URL is filled from `{mla.group(1).strip()[:60]}`, the header\'s '
+                     f'default key is `{key_term}`: with more than one key the LA_URL names a key id other than the KID '
+                     'it stands beside (a loop variable that is still in scope after the loop is the last key, not the '
+                     'default one)', fn)
+        elif mla:
+            rep.ok(rid, c, 'licence URL names the default key', f'default_kid = {mla.group(1).strip()[:50]}')
         if ok:
             rep.ok(rid, c, 'default kid / key / checksum from one key', f'key = {key_term}')
         else:
